@@ -1,8 +1,16 @@
 (* C03 - the on-disk structures stay consistent after every operation.
    The invariant itself is [Spec.Wf.wf_issues fold im = []] over the independent decoder [Spec.Abs.abs].
-   Theorems proved so far concern the image layer the decoder reads through (frame of device writes). *)
-From Coq Require Import NArith List.
-From FatVerif Require Import Model.Base Spec.Image Proofs.ImageProofs.
+   This file: the image layer the decoder reads through (frame of device writes), and the directory SLOT clauses of the
+   property - nothing follows the end-of-directory marker; every long-name run is complete, correctly ordered, padded and
+   checksummed against its short entry; no duplicate short names - for the library's directory update code
+   (Model/DirSlots.v) against the independent decoder Spec/Abs.dir_scan: [dir_scan ss 0 [] fat32 = (es, ls, [])] says
+   the directory [ss] decodes to the entries [es] and labels [ls] with NO issue (DOrphanLfn / DAfterEnd).
+   Property theorems only, each closed by [exact] of a lemma of Proofs/DirSlotsProofs.v. *)
+From Coq Require Import NArith List Bool.
+From FatVerif Require Import Model.Base Model.Str Model.Slot Model.Time Model.Name Model.ShortName Model.DirSlots
+  Spec.Image Spec.Abs Proofs.ImageProofs Proofs.DirSlotsProofs.
+From FatVerif Require Model.Lfn Proofs.TimeProofs.
+Import ListNotations.
 Open Scope N_scope.
 
 (* a device write changes exactly the bytes of its range: everything the decoder reads elsewhere is unchanged *)
@@ -14,5 +22,125 @@ Theorem C03_write_effect : forall bs im off i,
   (i < length bs)%nat -> img_get (img_write im off bs) (off + N.of_nat i) = nth i bs 0.
 Proof. exact img_write_inside. Qed.
 
+(* ---- the library's long-name WRITER against the specification's READER: the slots LfnEntriesGenerator emits for an
+   accepted name, followed by the serialised short entry, are a valid run for Abs.run_valid (count 1..20, 0x40 on the first
+   stored slot, orders n..1, checksum of the short name in every slot, NUL + 0xFFFF padding, 1..255 units) and decode to
+   exactly the UTF-16 form of the name.  (Abs keeps pending long-name slots newest-first, hence [rev].) *)
+Theorem C03_written_run_valid : forall n e idx fat32,
+  validate_long_name n = Ok tt -> is_dot_name n = false -> sfn_fields_ok e ->
+  let lfn_slots := map lfn_encode (lfn_entries (utf16_encode n) (lfn_checksum (se_name e))) in
+  let en := mk_entry (rev lfn_slots) (sfn_encode e) idx fat32 in
+  run_valid (rev lfn_slots) (se_name e) = true /\ e_lfn en = utf16_encode n /\ e_lfn_ok en = true /\
+  e_sfn en = se_name e /\ e_first_slot en = idx - len_N lfn_slots /\ e_sfn_slot en = idx.
+Proof. exact written_run_valid. Qed.
+(* a 15-unit name: 2 slots, orders 0x42, 0x01; a 13-unit name ending in U+FFFF: 1 slot without terminator *)
+Example C03_written_run_valid_ex :
+  validate_long_name ex_name1 = Ok tt /\ is_dot_name ex_name1 = false /\ sfn_fields_ok (ex_sfn ex_alias1) /\
+  map (fun s => byte_at s 0) (map lfn_encode (lfn_entries (utf16_encode ex_name1) (lfn_checksum ex_alias1))) = [66; 1] /\
+  (let n := repeat_N 120 12 ++ [65535] in
+   validate_long_name n = Ok tt /\
+   run_valid (rev (map lfn_encode (lfn_entries (utf16_encode n) (lfn_checksum ex_alias1)))) ex_alias1 = true) /\
+  run_valid (rev (map lfn_encode (lfn_entries (utf16_encode ex_name1) 0))) ex_alias1 = false.
+Proof.
+  split; [reflexivity|]. split; [reflexivity|]. split; [constructor; vm_compute; reflexivity|]. vm_compute. repeat split.
+Qed.
+
+(* ---- write_entry refines "insert one entry" (the long-name run is omitted for "." and "..").  If the directory decodes
+   without issue, then after a successful write_entry it decodes to the same entries plus exactly one new entry, which sits
+   at the position of the reused run (NOT necessarily last); the new entry carries the given name, alias, attributes,
+   times, cluster and size; slots outside [p, q) are untouched and the slots inside were free. *)
+Theorem C03_write_entry_refines : forall k free fat32 ss n e es ls p q ss',
+  dir_scan ss 0 [] fat32 = (es, ls, []) -> len_N ss < 134217728 -> sfn_live e ->
+  write_entry k free ss n e = (Ok (p, q), ss') ->
+  exists es1 es2 ne,
+    es = es1 ++ es2 /\ dir_scan ss' 0 [] fat32 = (es1 ++ ne :: es2, ls, []) /\
+    e_lfn ne = (if is_dot_name n then [] else utf16_encode n) /\ e_lfn_ok ne = true /\
+    e_sfn ne = se_name e /\ e_attr ne = se_attrs e /\ e_ntres ne = se_reserved_0 e /\
+    e_ctime_ms ne = se_create_time_0 e /\ e_ctime ne = se_create_time_1 e /\ e_cdate ne = se_create_date e /\
+    e_adate ne = se_access_date e /\ e_mtime ne = se_modify_time e /\ e_mdate ne = se_modify_date e /\
+    e_cluster ne = (if fat32 then se_first_cluster_hi e * 65536 else 0) + se_first_cluster_lo e /\
+    e_size ne = se_size e /\ e_first_slot ne = p /\ e_sfn_slot ne + 1 = q /\
+    q = p + len_N (entry_run n e) /\
+    (forall i, (i < length ss)%nat -> (N.of_nat i < p \/ q <= N.of_nat i) -> nth_error ss' i = nth_error ss i) /\
+    (forall i s, p <= N.of_nat i < q -> nth_error ss i = Some s -> free_slot s) /\
+    (length ss <= length ss')%nat /\ (k = FixedRoot -> length ss' = length ss).
+Proof. exact write_entry_refines. Qed.
+(* appended at the end marker; then, after the first entry is removed, a 2-slot entry goes INTO the freed run: it is
+   decoded first although it was created last; a chain-backed directory grows by one zeroed cluster *)
+Example C03_write_entry_refines_ex :
+  dir_scan ex_dir1 0 [] false = ([mk_entry (rev (firstn 2 ex_dir1)) (nth 2 ex_dir1 []) 2 false], [], []) /\
+  sfn_live (ex_sfn ex_alias2) /\
+  fst (write_entry FixedRoot 0 ex_dir1 [98] (ex_sfn ex_alias2)) = Ok (3, 5) /\
+  map e_sfn (fst (fst (dir_scan ex_dir2 0 [] false))) = [ex_alias1; ex_alias2] /\
+  map e_lfn (fst (fst (dir_scan ex_dir2 0 [] false))) = [ex_name1; [98]] /\ snd (dir_scan ex_dir2 0 [] false) = [] /\
+  (let d := mark_deleted ex_dir2 0 3 in
+   let r := write_entry FixedRoot 0 d [99] (ex_sfn [67; 32; 32; 32; 32; 32; 32; 32; 32; 32; 32]) in
+   fst r = Ok (0, 2) /\ map e_lfn (fst (fst (dir_scan (snd r) 0 [] false))) = [[99]; [98]] /\ snd (dir_scan (snd r) 0 [] false) = []) /\
+  (let r := write_entry (Chained 16) 1 (firstn 5 ex_dir2) [99] (ex_sfn [67; 32; 32; 32; 32; 32; 32; 32; 32; 32; 32]) in
+   fst r = Ok (5, 7) /\ length (snd r) = 21%nat /\ snd (dir_scan (snd r) 0 [] false) = []).
+Proof.
+  split; [vm_compute; reflexivity|]. split.
+  { constructor; [constructor; vm_compute; reflexivity| | |]; vm_compute; try reflexivity; discriminate. }
+  vm_compute. repeat split.
+Qed.
+
+(* ---- the deletion loop of remove / rename_internal refines "remove one entry": marking the slots of a decoded entry
+   deleted removes exactly that entry and creates no issue; all other slots are untouched, the marked slots change as
+   [mark_deleted_slot] says (first byte 0xE5; the codec round trip also clears bits 6-7 of the attribute byte). *)
+Theorem C03_mark_deleted_refines : forall fat32 ss es ls e,
+  dir_scan ss 0 [] fat32 = (es, ls, []) -> In e es ->
+  let ss' := mark_deleted ss (e_first_slot e) (e_sfn_slot e + 1) in
+  exists es1 es2,
+    es = es1 ++ e :: es2 /\ dir_scan ss' 0 [] fat32 = (es1 ++ es2, ls, []) /\
+    length ss' = length ss /\
+    (forall i, (N.of_nat i < e_first_slot e \/ e_sfn_slot e < N.of_nat i) -> nth_error ss' i = nth_error ss i) /\
+    (forall i s, e_first_slot e <= N.of_nat i <= e_sfn_slot e -> nth_error ss i = Some s ->
+                 nth_error ss' i = Some (mark_deleted_slot s)).
+Proof. exact mark_deleted_refines. Qed.
+Example C03_mark_deleted_refines_ex :
+  let e := nth 0 (fst (fst (dir_scan ex_dir2 0 [] false))) (mk_entry [] [] 0 false) in
+  e_first_slot e = 0 /\ e_sfn_slot e = 2 /\
+  map e_lfn (fst (fst (dir_scan (mark_deleted ex_dir2 0 3) 0 [] false))) = [[98]] /\
+  snd (dir_scan (mark_deleted ex_dir2 0 3) 0 [] false) = [] /\
+  map (fun s => byte_at s 0) (mark_deleted ex_dir2 0 3) = [229; 229; 229; 65; 66; 0; 0; 0].
+Proof. vm_compute. repeat split. Qed.
+
+(* ---- rename with the code's order (delete the source slots, then write): the decoding loses exactly the source entry
+   and gains exactly the new one *)
+Theorem C03_rename_slots_refines : forall k free fat32 ss n se es ls e p q ss',
+  dir_scan ss 0 [] fat32 = (es, ls, []) -> len_N ss < 134217728 -> In e es -> sfn_live se ->
+  write_entry k free (mark_deleted ss (e_first_slot e) (e_sfn_slot e + 1)) n se = (Ok (p, q), ss') ->
+  exists a b c d ne,
+    es = a ++ e :: b /\ a ++ b = c ++ d /\ dir_scan ss' 0 [] fat32 = (c ++ ne :: d, ls, []) /\
+    e_lfn ne = (if is_dot_name n then [] else utf16_encode n) /\ e_lfn_ok ne = true /\ e_sfn ne = se_name se /\
+    e_attr ne = se_attrs se /\ e_size ne = se_size se /\
+    e_cluster ne = (if fat32 then se_first_cluster_hi se * 65536 else 0) + se_first_cluster_lo se /\
+    e_first_slot ne = p /\ e_sfn_slot ne + 1 = q.
+Proof. exact rename_slots_refines. Qed.
+
+(* ---- the slot clauses alone ([slots_wf fat32 ss] = the decoder reports no issue for ss): preserved by every successful
+   write_entry (whatever the name, wherever the run goes, also when the directory grows) and by deleting any decoded entry;
+   volume labels are untouched.  Failing writes outside validation do NOT preserve them (D5/D20):
+   C01_failed_write_unchanged_refuted in Props/C01.v leaves an orphan run. *)
+Theorem C03_slot_clauses_preserved :
+  (forall k free fat32 ss n e range ss',
+     slots_wf fat32 ss -> len_N ss < 134217728 -> sfn_live e ->
+     write_entry k free ss n e = (Ok range, ss') ->
+     slots_wf fat32 ss' /\ snd (fst (dir_scan ss' 0 [] fat32)) = snd (fst (dir_scan ss 0 [] fat32))) /\
+  (forall fat32 ss e,
+     slots_wf fat32 ss -> In e (fst (fst (dir_scan ss 0 [] fat32))) ->
+     slots_wf fat32 (mark_deleted ss (e_first_slot e) (e_sfn_slot e + 1)) /\
+     snd (fst (dir_scan (mark_deleted ss (e_first_slot e) (e_sfn_slot e + 1)) 0 [] fat32)) = snd (fst (dir_scan ss 0 [] fat32))).
+Proof. exact slot_clauses_preserved. Qed.
+Example C03_keeps_wf_ex :
+  slots_wf false ex_dir2 /\ slots_wf false (mark_deleted ex_dir2 0 3) /\
+  ~ slots_wf false (mark_deleted ex_dir2 2 3) /\ ~ slots_wf false (zero_slot :: ex_dir2).
+Proof. split; [reflexivity|]. split; [reflexivity|]. split; vm_compute; discriminate. Qed.
+
 Print Assumptions C03_write_frame.
 Print Assumptions C03_write_effect.
+Print Assumptions C03_written_run_valid.
+Print Assumptions C03_write_entry_refines.
+Print Assumptions C03_mark_deleted_refines.
+Print Assumptions C03_rename_slots_refines.
+Print Assumptions C03_slot_clauses_preserved.
